@@ -387,7 +387,9 @@ class StructureVisitor(ASTTemplate):
         if isinstance(node, AST.ParFunction):
             return self._get_dataset_structure(node.operand)
         if isinstance(node, AST.ParamOp):
-            return self._get_dataset_structure(node.children[0]) if node.children else None
+            if not node.children:
+                return None
+            return self._without_attributes(self._get_dataset_structure(node.children[0]))
         if isinstance(node, AST.Aggregation) and node.operand:
             return self._build_aggregation_structure(node)
         if isinstance(node, AST.JoinOp):
@@ -470,17 +472,26 @@ class StructureVisitor(ASTTemplate):
             ds = self._get_dataset_structure(node.left)
             if ds is not None and op in (tokens.IN, tokens.NOT_IN):
                 return self._build_boolean_result_structure(ds)
-            return ds
+            return self._without_attributes(ds)
         if right_is_ds:
-            return self._get_dataset_structure(node.right)
+            return self._without_attributes(self._get_dataset_structure(node.right))
         return None
+
+    @staticmethod
+    def _without_attributes(ds: Optional[Dataset]) -> Optional[Dataset]:
+        """Structure of a dataset-scalar operation: the SELECT built for it keeps identifiers,
+        measures and viral attributes; plain attributes are not propagated."""
+        if ds is None or not any(c.role == Role.ATTRIBUTE for c in ds.components.values()):
+            return ds
+        comps = {n: c for n, c in ds.components.items() if c.role != Role.ATTRIBUTE}
+        return Dataset(name=ds.name, components=comps, data=None)
 
     def _resolve_unaryop_structure(self, node: AST.UnaryOp) -> Optional[Dataset]:
         """Resolve a UnaryOp to its dataset structure."""
         ds = self._get_dataset_structure(node.operand)
         if ds is not None and node.op == tokens.ISNULL and len(ds.get_measures_names()) == 1:
             return self._build_boolean_result_structure(ds)
-        return ds
+        return self._without_attributes(ds)
 
     def _build_aggregation_structure(self, node: AST.Aggregation) -> Optional[Dataset]:
         """Resolve an Aggregation (count/sum/avg/…) to its output structure."""
